@@ -100,6 +100,38 @@ def coq_make(targets=None, timeout=3000):
         lock.close()
 
 
+# axioms that may appear in `Print Assumptions` output, per property (everything else fails the check)
+REAL_AXIOMS = {'ClassicalDedekindReals.sig_forall_dec', 'ClassicalDedekindReals.sig_not_dec', 'Classical_Prop.classic',
+               'FunctionalExtensionality.functional_extensionality_dep'}
+AXIOM_ALLOW = {'C01': {'ClassicalDedekindReals.sig_forall_dec', 'FunctionalExtensionality.functional_extensionality_dep'},
+               'C02': set(REAL_AXIOMS)}        # C02 additionally: Coq's primitive 63-bit integers (Interval), matched by prefix
+AXIOM_ALLOW_PREFIX = {'C02': ('PrimInt63.', 'Uint63.')}
+FORBIDDEN = ('Admitted', 'admit.', 'admit;', 'give_up', 'Axiom ', 'Axioms ', 'Parameter ', 'Parameters ', 'Conjecture ', 'Unset Guard',
+             'Unset Universe', 'Unset Positivity', 'bypass_check', 'type-in-type', 'Abort')
+
+
+def scan_forbidden():
+    """Forbidden tokens anywhere in the development (comments stripped); a Variable/Hypothesis/Context outside a Section."""
+    bad = []
+    for rel in _all_v_files():
+        if rel.startswith('theories/Gen/'):
+            continue
+        text = re.sub(r'\(\*.*?\*\)', '', open(os.path.join(COQ, rel)).read(), flags=re.S)
+        for tok in FORBIDDEN:
+            if tok in text:
+                bad.append('%s: %r' % (rel, tok))
+        depth = 0
+        for line in text.split('\n'):
+            st = line.strip()
+            if re.match(r'Section\s+\w+', st):
+                depth += 1
+            elif re.match(r'End\s+\w+\s*\.', st) and depth > 0:
+                depth -= 1
+            elif depth == 0 and re.match(r'(Variable|Variables|Hypothesis|Hypotheses|Context)\b', st):
+                bad.append('%s: %s outside a Section' % (rel, st[:60]))
+    return bad
+
+
 THEOREM_RE = re.compile(r'^\s*(Theorem|Lemma|Corollary|Example|Fact|Proposition)\s+([A-Za-z0-9_\']+)', re.M)
 
 
@@ -114,12 +146,15 @@ def check_properties_file(pid, timeout=900):
     text = open(src).read()
     text_nc = re.sub(r'\(\*.*?\*\)', '', text, flags=re.S)
     theorems = [m.group(2) for m in THEOREM_RE.finditer(text_nc)]
+    kinds = [m.group(1) for m in THEOREM_RE.finditer(text_nc)]
     res = {'obligations': len(theorems), 'discharged': 0, 'theorems': theorems, 'axioms': [], 'ok': False,
+           'n_theorems': sum(1 for k in kinds if k != 'Example'), 'n_examples': sum(1 for k in kinds if k == 'Example'),
            'log': '', 'checker_cmd': 'coqc -Q theories E3FP %s (after make of its dependencies; Coq 8.16.1)' % rel}
-    for bad in ('Admitted', 'admit.', 'Axiom ', 'Parameter ', 'Conjecture ', 'Unset Guard', 'bypass_check', 'Abort'):
-        if bad in text_nc:
-            res['log'] = 'forbidden token %r in %s' % (bad, rel)
-            return res
+    bad = scan_forbidden()
+    if bad:
+        res['log'] = 'forbidden construct in the development: ' + '; '.join(bad[:5])
+        res['broken'] = bad[:5]
+        return res
     try:
         coq_make([rel + 'o'], timeout=timeout)
     except CoqBuildError as e:
@@ -154,6 +189,17 @@ def check_properties_file(pid, timeout=900):
             axioms.add(m.group(1))
     res['axioms'] = sorted(axioms)
     res['print_assumptions'] = closed + out.count('Axioms:')
+    allow, pref = AXIOM_ALLOW.get(pid, set()), AXIOM_ALLOW_PREFIX.get(pid, ())
+    extra = [a for a in axioms if a not in allow and not a.startswith(pref)]
+    if extra:
+        res['log'] = 'Print Assumptions reports axioms outside the allow-list of %s: %s' % (pid, ', '.join(sorted(extra)))
+        res['broken'] = ['(unexpected axioms: %s)' % ', '.join(sorted(extra)[:5])]
+        return res
+    n_thm = len(re.findall(r'^\s*Theorem\s', text_nc, re.M))
+    if res['print_assumptions'] < n_thm:
+        res['log'] = 'only %d Print Assumptions outputs for %d Theorems in %s' % (res['print_assumptions'], n_thm, rel)
+        res['broken'] = ['(a Theorem without Print Assumptions)']
+        return res
     res['discharged'] = len(theorems)
     res['ok'] = True
     return res
@@ -310,6 +356,7 @@ class Ctx(object):
         self.coverage['discharged'] = res['discharged']
         self.coverage['checker_cmd'] = res['checker_cmd']
         self.coverage['theorems'] = res['theorems']
+        self.coverage['obligations_breakdown'] = {'theorems': res.get('n_theorems'), 'non_vacuity_examples': res.get('n_examples')}
         self.coverage['axioms_reported_by_Print_Assumptions'] = res['axioms']
         self.proof = res
         return res['ok']
@@ -347,10 +394,18 @@ class Ctx(object):
         ev = {'property_id': self.pid, 'tier': self.tier, 'seed': self.seed, 'level': 'proof', 'coverage': cov,
               'assumptions': self.assumptions, 'wall_s': round(time.time() - self.t0, 2),
               'violations': len(self.violations), 'known_findings_reproduced': sorted(seen), 'notes': self.notes}
-        os.makedirs(os.path.join(VERIF, 'evidence'), exist_ok=True)
-        tmp = os.path.join(VERIF, 'evidence', '.%s.%d.tmp' % (self.pid, os.getpid()))
+        try:
+            head = subprocess.check_output(['git', '-C', REPO, 'rev-parse', '--short', 'HEAD'], stderr=subprocess.DEVNULL, text=True).strip()
+            dirty = bool(subprocess.check_output(['git', '-C', REPO, 'status', '--porcelain', '--', 'src', 'tests'], stderr=subprocess.DEVNULL, text=True).strip())
+        except Exception:
+            head, dirty = 'unknown', None
+        ev['repo'] = {'path': REPO, 'head': head, 'working_tree_modified': dirty}
+        # evidence/ describes /repo itself; runs against another tree (self-tests with VERIF_REPO) never overwrite it
+        evdir = os.path.join(VERIF, 'evidence') if os.path.realpath(REPO) == '/repo' else os.path.join(VERIF, 'work', 'evidence_other_tree')
+        os.makedirs(evdir, exist_ok=True)
+        tmp = os.path.join(evdir, '.%s.%d.tmp' % (self.pid, os.getpid()))
         json.dump(ev, open(tmp, 'w'), indent=1, default=str)
-        os.replace(tmp, os.path.join(VERIF, 'evidence', '%s.json' % self.pid))
+        os.replace(tmp, os.path.join(evdir, '%s.json' % self.pid))
         shutil.rmtree(self.workdir, ignore_errors=True)
         print('%s %s: %d obligations / %d discharged, %d evaluations (%d distinct non-trivial), %d violation(s), %d known finding(s), %.1fs'
               % (self.pid, self.tier, cov['obligations'], cov['discharged'], cov['evaluations'], cov['distinct_nontrivial'],
@@ -381,7 +436,9 @@ def compare_cases(ctx, cases, imports, what, payloads, finding_key_of=None, shar
     cases: list of (key, expr); payloads: key -> json-able description of the input and the implementation's observation.
     model_expr: optional key -> Coq expression printing the model's own output (evaluated only for failing cases)."""
     if not cases:
-        return 0
+        ctx.fail('%s: no case was generated for this stream (a check that compares nothing proves nothing)' % what, {'stream': what},
+                 no_input=True, kind='harness-error')
+        return 1
     results, logs = coq_eval_bools(cases, imports, os.path.join(ctx.workdir, 'eval_%d' % len(os.listdir(ctx.workdir))), shard=shard, prelude=prelude)
     bad = [k for k, _ in cases if results.get(k) is not True]
     ctx.coverage['traces_validated_against_impl'] += sum(1 for k, _ in cases if results.get(k) is True)
